@@ -309,7 +309,7 @@ impl DialectHandler for PostgresDialect {
                     // We hence need to put it in double quotes to force it to be interpreted as literal text
                     format!("\"{literal}\"")
                 } else {
-                    literal.replace('\'', "''").replace('"', "\\\"")
+                    literal.replace('"', "\\\"")
                 }
             }
             Item::Space(spaces) => spaces.to_string(),
@@ -378,7 +378,7 @@ impl DialectHandler for RedshiftDialect {
                     // We hence need to put it in double quotes to force it to be interpreted as literal text
                     format!("\"{literal}\"")
                 } else {
-                    literal.replace('\'', "''").replace('"', "\\\"")
+                    literal.replace('"', "\\\"")
                 }
             }
             Item::Space(spaces) => spaces.to_string(),
@@ -525,7 +525,7 @@ impl DialectHandler for MySqlDialect {
             Item::Fixed(Fixed::LongWeekdayName) => "%W".to_string(),
             Item::Fixed(Fixed::UpperAmPm) => "%p".to_string(),
             Item::Fixed(Fixed::RFC3339) => "%Y-%m-%dT%H:%i:%S.%fZ".to_string(),
-            Item::Literal(literal) => literal.replace('\'', "''").replace('%', "%%"),
+            Item::Literal(literal) => literal.replace('%', "%%"),
             Item::Space(spaces) => spaces.to_string(),
             _ => {
                 return Err(Error::new_simple(
@@ -574,7 +574,7 @@ impl DialectHandler for ClickHouseDialect {
                     // Clickhouse uses backticks around
                     format!("'{literal}'")
                 } else {
-                    literal.replace('\'', "\\'\\'")
+                    literal.replace('\'', "''")
                 }
             }
             Item::Space(spaces) => spaces.to_string(),
@@ -672,7 +672,7 @@ impl DialectHandler for DuckDbDialect {
             Item::Fixed(Fixed::LongWeekdayName) => "%A".to_string(),
             Item::Fixed(Fixed::UpperAmPm) => "%p".to_string(),
             Item::Fixed(Fixed::RFC3339) => "%Y-%m-%dT%H:%M:%S.%fZ".to_string(),
-            Item::Literal(literal) => literal.replace('\'', "''").replace('%', "%%"),
+            Item::Literal(literal) => literal.replace('%', "%%"),
             Item::Space(spaces) => spaces.to_string(),
             _ => {
                 return Err(Error::new_simple(
